@@ -134,7 +134,10 @@ def enginesExcl (ps : PState) (toks : List String) : List String × Bool :=
     let incrD := (toks.find? (·.startsWith "incr=")).bind (fun t => (ps.obj (t.drop 5).toString).map (·.2))
     let mism := mism || (a.eng != .std && !(a.requiresIterator || b.requiresIterator) &&
       (match incrD with | some d => d.ap.o.col != a.ap.o.col && a.win.len != 1 | none => false))
-    ((if mism then ["F37"] else []) ++ (if Excl_reuseOrderFlip a reuse then ["F35"] else []), true)
+    -- F32: the default engine's incr mode on one-element operands clobbers the first operand
+    let f32 := a.eng == .std && incrD.isSome && a.win.len == 1 && b.win.len == 1
+    ((if mism then ["F37"] else []) ++ (if Excl_reuseOrderFlip a reuse then ["F35"] else []) ++
+     (if f32 then ["F32"] else []), true)
   | some "fma", a :: rest =>
     let mism := a.eng != .std && rest.any (fun t => !shapeEq a.shape t.shape || t.ap.o.col != a.ap.o.col)
     -- F32: the default engine's FMA is Mul with WithIncr: one-element operands clobber the first operand
